@@ -277,7 +277,7 @@ def check_probe(h, text, cells, meth, args, seed, twin=False):
     bad = []
     for k, (r, (wt, wc)) in enumerate(zip(res, want)):
         try:
-            rr = r._s if isinstance(r, AnsiStr) else r
+            rr = model.content(r)
             t2, c2 = model.alpha_codes(rr)
         except Exception as e:  # noqa
             bad.append(('piece-inconsistent', '%s piece %d: %s: %s' % (what, k, type(e).__name__, e)))
